@@ -1,7 +1,10 @@
 (* Proofs about the framing model, part 4: the C14 theorems over histories of Decode calls
    (all message lists, all chunkings, all cut points, all buffer states) and the allocation
    bound for arbitrary input bytes. *)
-From CV Require Import Frame.Frame Frame.FrameProofs Frame.FrameSafe Frame.FrameStream.
+From CV Require Import Frame.Frame.
+From CV Require Import Frame.FrameProofs.
+From CV Require Import Frame.FrameSafe.
+From CV Require Import Frame.FrameStream.
 From Coq Require Import ZifyBool ZifyNat.
 Ltac Zify.zify_post_hook ::= Z.div_mod_to_equations.
 Open Scope Z_scope.
